@@ -5,6 +5,7 @@ import RV.C03.LayoutLemmas
 import RV.C03.PreLemmas
 import RV.C03.NTLineLemmas
 import RV.C03.BaseRelLemmas
+import RV.C03.RefSplitLemmas
 /-
   C03 — property theorems: "serialise then parse gives back the same RDF graph".
 
@@ -457,5 +458,55 @@ theorem strip_needs_nodot :
     resolveRel ⟨"http://ex".toList, ["a".toList, []]⟩ ⟨["..".toList, "x".toList], []⟩
       ≠ renderBase ⟨"http://ex".toList, ["a".toList, []]⟩ ++ renderRel ⟨["..".toList, "x".toList], []⟩ := by
   decide
+
+/-! ## Base relativisation, character level (`_strippable_base` as the code spells it) -/
+
+/-- Whenever the writer's predicate accepts a non-empty rest, every reader splits that rest (RFC 3986 §3, with the
+    most liberal scheme detection: the text before the first of `: / ? #` if that delimiter is `:`) into NO scheme,
+    NO authority and a RELATIVE path (no leading "/") without dot segments; and the rest is that path followed by
+    its `?…#…` tail. -/
+def Statement_strippable_rest_shape : Prop :=
+  ∀ (base uri : Str), strippable base uri = true → uri.drop base.length ≠ [] →
+    (splitRef (uri.drop base.length)).scheme = none ∧ (splitRef (uri.drop base.length)).authority = none ∧
+    (splitRef (uri.drop base.length)).path = restPath (uri.drop base.length) ∧
+    startsWith ['/'] (restPath (uri.drop base.length)) = false ∧
+    (splitOn '/' (restPath (uri.drop base.length))).any isDotSeg = false ∧
+    renderRel (relOf (uri.drop base.length)) = uri.drop base.length
+
+/-- … hence (with `strip_resolves`) the reader's resolution of the rest against the base is the IRI itself, for
+    every reading of the base string as scheme://authority + "/"-separated segments. -/
+def Statement_strippable_resolves : Prop :=
+  ∀ (base uri : Str), strippable base uri = true → ∀ b : BaseIri, WfBase b → renderBase b = base →
+    resolveRel b (relOf (uri.drop base.length)) = uri
+
+theorem strippable_rest_shape : Statement_strippable_rest_shape := fun _ _ h hne => strippable_rest_shape' h hne
+
+theorem strippable_resolves : Statement_strippable_resolves := fun _ _ h b hw hb => strippable_resolves' h b hw hb
+
+/-- Each test of the predicate on the rest is necessary: a colon in the first segment makes a scheme (`a:b`, and for
+    rdflib's N3 reader even `:y`), a leading "//" an authority, a leading "/" an absolute path — and the predicate
+    rejects all of them (seeded change C03-2 had weakened the colon test).  The colon test is coarser than RFC 3986
+    needs (`q?x=a:b` has no scheme) — deliberately: rdflib's N3 `join` looks for a colon anywhere before a slash. -/
+theorem strippable_needs :
+    (splitRef "a:b".toList).scheme = some "a".toList ∧ (splitRef ":y".toList).scheme = some [] ∧
+    (splitRef "isbn:0451450523".toList).scheme = some "isbn".toList ∧
+    (splitRef "//h/x".toList).authority = some "h".toList ∧ (splitRef "//h/x".toList).path = "/x".toList ∧
+    (splitRef "/x".toList).authority = none ∧ (splitRef "/x".toList).path = "/x".toList ∧
+    (splitRef "q?x=a:b".toList).scheme = none ∧
+    strippable "http://ex/d/".toList "http://ex/d/a:b".toList = false ∧
+    strippable "http://ex/d/".toList "http://ex/d/:y".toList = false ∧
+    strippable "http://ex/d/".toList "http://ex/d/isbn:0451450523".toList = false ∧
+    strippable "http://ex/d/".toList "http://ex/d///h/x".toList = false ∧
+    strippable "http://ex/d/".toList "http://ex/d//x".toList = false ∧
+    strippable "http://ex/d/".toList "http://ex/d/q?x=a:b".toList = false ∧
+    strippable "http://ex/d/".toList "http://ex/d/q?x=1#f".toList = true ∧
+    strippable "http://ex/d/".toList "http://ex/d/".toList = true ∧
+    strippable "http://ex/d".toList "http://ex/dX".toList = false := by
+  decide
+
+/-- non-vacuity of `strippable_resolves`: a concrete base reading and an accepted IRI -/
+example : WfBase ⟨"http://ex".toList, ["d".toList, []]⟩ ∧ renderBase ⟨"http://ex".toList, ["d".toList, []]⟩ = "http://ex/d/".toList
+    ∧ resolveRel ⟨"http://ex".toList, ["d".toList, []]⟩ (relOf ("http://ex/d/q/r?x=1#f".toList.drop 12)) = "http://ex/d/q/r?x=1#f".toList := by
+  refine ⟨⟨by decide, by decide⟩, by decide, by decide⟩
 
 end RV.C03
